@@ -23,7 +23,7 @@ Alphabets == [
   \* strings and raw strings CONTAINING brackets, a comment, atoms.  All token sequences up to
   \* MaxLen contain every well-formed expression of that size cut after every token and
   \* extended by every closer (C16).
-  tokens   |-> <<"(", ")", "[", "]", "{", "}", "#{", "'", "\"]\"", "¬)¬", "a", "1", ":k", "; (\n">>,
+  tokens   |-> <<"(", ")", "[", "]", "{", "}", "#{", "'", "\"]\"", "¬)¬", "a", "1", ":k", "; (\n", "¬x", "\"y">>,
   \* preamble-shaped texts (entries concatenated directly): module header, placeholder lines
   preamble |-> <<";; $MODULE ", ";; $MODULE", ";; $A 1", ";; $", "\n", "x", "$A", "(", ")", " ", ";;", "\n\n", "1", ";; $A">>,
   tokens2  |-> <<"(", ")", "[", "]", "{", "}", "#{", "~@", "@", "^", "\"a\"", ":k", "`", "~">>,
